@@ -104,10 +104,11 @@ def documented_x_update(b):
         W = np.ones(A.shape[0]) if fr.get("W") is None else np.asarray(fr["W"], dtype=np.float64)
         H += 2.0 * fr["s"] * (A.conj().T * W) @ A
         rhs += 2.0 * fr["s"] * (A.conj().T * W) @ y
-    for rho, c, z, u in zip(s.rho_list, r["C"], s.z_list, s.u_list):
+    xw = r.get("xweights") or [1.0] * len(r["C"])  # G0BlockCircularConvolveSolver: x-step of its docstring (rho_1 * omega)
+    for rho, w_, c, z, u in zip(s.rho_list, xw, r["C"], s.z_list, s.u_list):
         M = np.asarray(G.op_dense(c, b.xshape)[0])
-        H += rho * M.conj().T @ M
-        rhs += rho * M.conj().T @ (np.asarray(G.np_flat(z)) - np.asarray(G.np_flat(u)))
+        H += w_ * rho * M.conj().T @ M
+        rhs += w_ * rho * M.conj().T @ (np.asarray(G.np_flat(z)) - np.asarray(G.np_flat(u)))
     if np.linalg.cond(H) > 1e10:
         return None
     x = np.linalg.solve(H, rhs)
@@ -598,6 +599,8 @@ def run_case(ctx, model, recipe, k, rng, accessors=True, tag="gen"):
             ctx.count("admm.matrix-solver-C_list:" + ("mixed" if len(kinds) > 1 else kinds.pop()))
         ctx.count(f"admm.N:{len(recipe['C'])}")
         ctx.count("admm.f:" + ("none" if recipe["f"] is None else "loss"))
+    if recipe.get("reuse") is not None:
+        ctx.count("history:helper-object-reused(" + ("sub-problem solver" if a == "admm" else "step-size object") + ")")
     if a in ("pgm", "apgm") and recipe.get("decoy_L0") is not None:
         ctx.count("history:second-solver-with-default-step-size-alive")
     if a in ("pgm", "apgm"):
